@@ -19,78 +19,99 @@ theorem insertIntoTriangle_eq (s : St) (f0 : Nat) (p : Pt) (d : Nat) :
       (s.org (s.fe f0)) (s.org (s.nxt (s.fe f0))) (s.org (s.nxt (s.nxt (s.fe f0)))) f0 p d := rfl
 
 set_option maxHeartbeats 4000000 in
+/-- inserting a vertex into an inner face keeps the link invariant -/
 theorem LInv.itCore {s : St} (hs : LInv s) (f0 : Nat) (p : Pt) (d : Nat) (hf0 : 0 < f0) (hf : f0 < s.nF) :
     LInv (itCore s (s.fe f0) (s.nxt (s.fe f0)) (s.nxt (s.nxt (s.fe f0)))
       (s.org (s.fe f0)) (s.org (s.nxt (s.fe f0))) (s.org (s.nxt (s.nxt (s.fe f0)))) f0 p d) := by
-  obtain ⟨b0, hfc⟩ := hs.anchor f0 hf0 hf
-  have hfc0 : s.fc (s.fe f0) ≠ 0 := by omega
-  obtain ⟨a1, a2, a3, a4, a5, a6, a7, a8, a9, a10, a11⟩ := hs.tri b0 hfc0
-  have E0 := hs.edge _ b0
-  have E1 := hs.edge _ a1
-  have E2 := hs.edge _ a2
   have ev0 := hs.even
-  have hF1 := hs.faces
+  obtain ⟨b_0, hfc⟩ := hs.anchor f0 hf0 hf
+  have hfc0 : s.fc (s.fe f0) ≠ 0 := by omega
+  obtain ⟨b_1, b_2, a3, a4, a5, a6, a7, a8, d_0_1, d_0_2, d_1_2⟩ := hs.tri b_0 hfc0
+  have E0 := hs.edge _ b_0
+  have E1 := hs.edge _ b_1
+  have E2 := hs.edge _ b_2
+  have l0 := hs.rv_lt b_0
+  have l1 := hs.rv_lt b_1
+  have l2 := hs.rv_lt b_2
   generalize he0 : s.fe f0 = e0 at *
   generalize he1 : s.nxt e0 = e1 at *
   rw [a3]
   generalize he2 : s.prv e0 = e2 at *
-  have l0 := hs.rv_lt b0
-  have l1 := hs.rv_lt a1
-  have l2 := hs.rv_lt a2
+  have n_0 : ∀ k, s.nE + k ≠ e0 := by intro k; omega
+  have m_0 : s.nE ≠ e0 := by omega
+  have u_0 : ∀ k, e0 < s.nE + k := by intro k; omega
+  have n_1 : ∀ k, s.nE + k ≠ e1 := by intro k; omega
+  have m_1 : s.nE ≠ e1 := by omega
+  have u_1 : ∀ k, e1 < s.nE + k := by intro k; omega
+  have n_2 : ∀ k, s.nE + k ≠ e2 := by intro k; omega
+  have m_2 : s.nE ≠ e2 := by omega
+  have u_2 : ∀ k, e2 < s.nE + k := by intro k; omega
+  have x_0 : s.nE ^^^ 1 = s.nE + 1 := by rw [xor_one_eq]; split <;> omega
+  have x_1 : (s.nE + 1) ^^^ 1 = s.nE := by rw [xor_one_eq]; split <;> omega
+  have x_2 : (s.nE + 2) ^^^ 1 = s.nE + 3 := by rw [xor_one_eq]; split <;> omega
+  have x_3 : (s.nE + 3) ^^^ 1 = s.nE + 2 := by rw [xor_one_eq]; split <;> omega
+  have x_4 : (s.nE + 4) ^^^ 1 = s.nE + 5 := by rw [xor_one_eq]; split <;> omega
+  have x_5 : (s.nE + 5) ^^^ 1 = s.nE + 4 := by rw [xor_one_eq]; split <;> omega
+  have hF1 := hs.faces
+  have hdsz := hs.dsz
+  have hvsz := hs.vsz
   have dz : (s.itCore e0 e1 e2 (s.org e0) (s.org e1) (s.org e2) f0 p d).data.size = s.data.size + 1 :=
     (grows_run' s _ 1 6 2 (by simp [Instr.dV]) (by simp [Instr.dE]) (by simp [Instr.dF])).data
   have vz : (s.itCore e0 e1 e2 (s.org e0) (s.org e1) (s.org e2) f0 p d).vOut.size = s.vOut.size + 1 :=
     (grows_run' s _ 1 6 2 (by simp [Instr.dV]) (by simp [Instr.dE]) (by simp [Instr.dF])).vout
-  have x0 : s.nE ^^^ 1 = s.nE + 1 := by rw [xor_one_eq]; split <;> omega
-  have x1 : (s.nE + 1) ^^^ 1 = s.nE := by rw [xor_one_eq]; split <;> omega
-  have x2 : (s.nE + 2) ^^^ 1 = s.nE + 3 := by rw [xor_one_eq]; split <;> omega
-  have x3 : (s.nE + 3) ^^^ 1 = s.nE + 2 := by rw [xor_one_eq]; split <;> omega
-  have x4 : (s.nE + 4) ^^^ 1 = s.nE + 5 := by rw [xor_one_eq]; split <;> omega
-  have x5 : (s.nE + 5) ^^^ 1 = s.nE + 4 := by rw [xor_one_eq]; split <;> omega
-  have hdsz := hs.dsz
-  have hvsz := hs.vsz
+  have szE : (s.itCore e0 e1 e2 (s.org e0) (s.org e1) (s.org e2) f0 p d).nE = s.nE + 6 := by unfold St.itCore; evw [b_0, b_1, b_2, d_0_1, d_0_1.symm, d_0_2, d_0_2.symm, d_1_2, d_1_2.symm, n_0, (n_0 _).symm, m_0, m_0.symm, u_0, n_1, (n_1 _).symm, m_1, m_1.symm, u_1, n_2, (n_2 _).symm, m_2, m_2.symm, u_2]
+  have szF : (s.itCore e0 e1 e2 (s.org e0) (s.org e1) (s.org e2) f0 p d).nF = s.nF + 2 := by unfold St.itCore; evw [b_0, b_1, b_2, d_0_1, d_0_1.symm, d_0_2, d_0_2.symm, d_1_2, d_1_2.symm, n_0, (n_0 _).symm, m_0, m_0.symm, u_0, n_1, (n_1 _).symm, m_1, m_1.symm, u_1, n_2, (n_2 _).symm, m_2, m_2.symm, u_2]
+  have szV : (s.itCore e0 e1 e2 (s.org e0) (s.org e1) (s.org e2) f0 p d).nV = s.nV + 1 := by unfold St.itCore; evw [b_0, b_1, b_2, d_0_1, d_0_1.symm, d_0_2, d_0_2.symm, d_1_2, d_1_2.symm, n_0, (n_0 _).symm, m_0, m_0.symm, u_0, n_1, (n_1 _).symm, m_1, m_1.symm, u_1, n_2, (n_2 _).symm, m_2, m_2.symm, u_2]
   apply hs.of_local [e0, e1, e2] [] [f0]
-  · unfold St.itCore; ev; omega
-  · unfold St.itCore; ev; omega
-  · unfold St.itCore; ev; omega
-  · unfold St.itCore; ev; omega
-  · rw [dz]; unfold St.itCore; ev; omega
-  · rw [vz]; unfold St.itCore; ev; omega
+  · omega
+  · omega
+  · omega
+  · omega
+  · omega
+  · omega
   · intro x hx
     simp only [List.mem_cons, List.not_mem_nil, or_false] at hx ⊢
     rcases hx with h | h | h <;> subst h <;> simp [*]
   · intro i hi hT
     simp only [List.mem_cons, List.not_mem_nil, or_false, not_or] at hT
-    obtain ⟨t1, t2, t3⟩ := hT
+    obtain ⟨t_0, t_1, t_2⟩ := hT
+    have hin : ∀ k, i ≠ s.nE + k := by intro k; omega
+    have hik : ∀ k, i < s.nE + k := by intro k; omega
+    have hi0 : i ≠ s.nE := by omega
     unfold St.itCore
-    refine ⟨?_, ?_, ?_⟩ <;> ev <;> grind
-  · intro i hi; unfold St.itCore; ev
-  · intro i hi _; unfold St.itCore; ev
+    refine ⟨?_, ?_, ?_⟩ <;> evw [b_0, b_1, b_2, d_0_1, d_0_1.symm, d_0_2, d_0_2.symm, d_1_2, d_1_2.symm, n_0, (n_0 _).symm, m_0, m_0.symm, u_0, n_1, (n_1 _).symm, m_1, m_1.symm, u_1, n_2, (n_2 _).symm, m_2, m_2.symm, u_2, t_0, t_1, t_2, hin, hik, hi0, hi]
+  · intro i hi
+    have hin : ∀ k, i ≠ s.nE + k := by intro k; omega
+    have hi0 : i ≠ s.nE := by omega
+    unfold St.itCore; evw [b_0, b_1, b_2, d_0_1, d_0_1.symm, d_0_2, d_0_2.symm, d_1_2, d_1_2.symm, n_0, (n_0 _).symm, m_0, m_0.symm, u_0, n_1, (n_1 _).symm, m_1, m_1.symm, u_1, n_2, (n_2 _).symm, m_2, m_2.symm, u_2, hin, hi0, hi]
+  · intro i hi _
+    have hin : ∀ k, i ≠ s.nE + k := by intro k; omega
+    have hi0 : i ≠ s.nE := by omega
+    unfold St.itCore; evw [b_0, b_1, b_2, d_0_1, d_0_1.symm, d_0_2, d_0_2.symm, d_1_2, d_1_2.symm, n_0, (n_0 _).symm, m_0, m_0.symm, u_0, n_1, (n_1 _).symm, m_1, m_1.symm, u_1, n_2, (n_2 _).symm, m_2, m_2.symm, u_2, hin, hi0, hi] <;> grind
   · intro x hx; simp at hx
   · intro x hx hc
-    have hx' : x = e0 ∨ x = e1 ∨ x = e2 ∨ x = s.nE ∨ x = s.nE + 1 ∨ x = s.nE + 2 ∨ x = s.nE + 3 ∨
-        x = s.nE + 4 ∨ x = s.nE + 5 := by
-      have : (s.itCore e0 e1 e2 (s.org e0) (s.org e1) (s.org e2) f0 p d).nE = s.nE + 6 := by
-        unfold St.itCore; ev
+    have hx' : x = e0 ∨ x = e1 ∨ x = e2 ∨ x = s.nE ∨ x = s.nE + 1 ∨ x = s.nE + 2 ∨ x = s.nE + 3 ∨ x = s.nE + 4 ∨ x = s.nE + 5 := by
       rcases hc with h | h
-      · simp only [List.mem_cons, List.not_mem_nil, or_false] at h; omega
+      · simp only [List.mem_cons, List.not_mem_nil, or_false] at h <;> omega
       · omega
     unfold St.itCore
     rcases hx' with h | h | h | h | h | h | h | h | h <;> subst h
-    all_goals (unfold EdgeOK dst; refine ⟨?_, ?_, ?_, ?_, ?_, ?_, ?_, ?_, ?_, ?_, ?_⟩ <;> ev <;>
-      (unfold EdgeOK dst at *; grind))
+    all_goals (unfold EdgeOK dst; refine ⟨?_, ?_, ?_, ?_, ?_, ?_, ?_, ?_, ?_, ?_, ?_⟩ <;>
+      evw [b_0, b_1, b_2, d_0_1, d_0_1.symm, d_0_2, d_0_2.symm, d_1_2, d_1_2.symm, n_0, (n_0 _).symm, m_0, m_0.symm, u_0, n_1, (n_1 _).symm, m_1, m_1.symm, u_1, n_2, (n_2 _).symm, m_2, m_2.symm, u_2, he1, he2, a3, a4, a5, a6] <;> (unfold EdgeOK dst at *; grind (splits := 40)))
   · intro f h0 hf hF
-    unfold St.itCore; ev
+    simp only [List.mem_cons, List.not_mem_nil, or_false, not_or] at hF
+    have hfn : ∀ k, f ≠ s.nF + k := by intro k; omega
+    have hf0 : f ≠ s.nF := by omega
+    have hfz : f ≠ 0 := by omega
+    unfold St.itCore; evw [b_0, b_1, b_2, d_0_1, d_0_1.symm, d_0_2, d_0_2.symm, d_1_2, d_1_2.symm, n_0, (n_0 _).symm, m_0, m_0.symm, u_0, n_1, (n_1 _).symm, m_1, m_1.symm, u_1, n_2, (n_2 _).symm, m_2, m_2.symm, u_2, hfn, hf0, hfz, hF] <;> grind
   · intro f h0 hf' hF
     have hx' : f = f0 ∨ f = s.nF ∨ f = s.nF + 1 := by
-      have : (s.itCore e0 e1 e2 (s.org e0) (s.org e1) (s.org e2) f0 p d).nF = s.nF + 2 := by
-        unfold St.itCore; ev
       rcases hF with h | h
-      · simp only [List.mem_cons, List.not_mem_nil, or_false] at h; omega
+      · simp only [List.mem_cons, List.not_mem_nil, or_false] at h <;> omega
       · omega
     unfold St.itCore
     rcases hx' with h | h | h <;> subst h
-    all_goals (refine ⟨?_, ?_⟩ <;> ev <;> grind)
+    all_goals (refine ⟨?_, ?_⟩ <;> evw [b_0, b_1, b_2, d_0_1, d_0_1.symm, d_0_2, d_0_2.symm, d_1_2, d_1_2.symm, n_0, (n_0 _).symm, m_0, m_0.symm, u_0, n_1, (n_1 _).symm, m_1, m_1.symm, u_1, n_2, (n_2 _).symm, m_2, m_2.symm, u_2, hf] <;> grind)
 
 end St
 end Spade
